@@ -69,7 +69,7 @@ macro "hm_simp" : tactic => `(tactic|
     HookTables.managedHookNames, HookTables.rebaseTerminalHookNames, HookTables.managedRunGuardedBySkip, *])
 
 /-- start of a rebase whose todo is not empty: Start logged, the mask on -/
-theorem rebase_start (sH : St) (r : RebaseFacts) (hs : sH.side = {}) :
+theorem rebase_start (sH : St) (r : RebaseFacts) (hs : sH.side = {}) (ha : r.autostash = false) :
     invokeAll {} false sH (rebaseStartEvs r false false) =
       ({ journal := sH.journal ++ [.rebaseStart (r.branchArg.getD r.orig) false (some r.upstreamArg)], side := { mask := true } },
        .log (.rebaseStart (r.branchArg.getD r.orig) false (some r.upstreamArg)) ::
@@ -77,7 +77,8 @@ theorem rebase_start (sH : St) (r : RebaseFacts) (hs : sH.side = {}) :
   unfold rebaseStartEvs
   rw [invokeAll_append]
   have h3 : invokeAll {} false sH
-      [.preRebase (some r.upstreamArg) r.branchArg { head := some r.orig, action := if false = true then Action.pull else Action.unset },
+      [.preRebase (some r.upstreamArg) r.branchArg
+          { head := some r.orig, action := if false = true then Action.pull else Action.unset, rebaseDir := r.autostash },
        .refTx .committed [⟨some r.orig, some r.onto, .head⟩]
           { ({ rebaseDir := true, action := if false = true then Action.pull else Action.unset } : Ctx) with head := some r.onto },
        .postCheckout (some r.orig) (some r.onto) true
@@ -95,7 +96,7 @@ theorem rebase_start (sH : St) (r : RebaseFacts) (hs : sH.side = {}) :
 
 /-- a rebase with nothing to replay (empty todo): the checkout of the new base is the last hook git runs while the
     rebase directory exists; the fallback of the post-checkout arm puts the masked entry points back -/
-theorem rebase_noop (sH : St) (r : RebaseFacts) (hs : sH.side = {}) (hi : r.inner = []) :
+theorem rebase_noop (sH : St) (r : RebaseFacts) (hs : sH.side = {}) (hi : r.inner = []) (ha : r.autostash = false) :
     invokeAll {} false sH (rebaseStartEvs r false true ++ rebaseEndEvs { r with pairs := [] } false) =
       ({ journal := sH.journal ++ [.rebaseStart (r.branchArg.getD r.orig) false (some r.upstreamArg)], side := {} },
        .log (.rebaseStart (r.branchArg.getD r.orig) false (some r.upstreamArg)) ::
@@ -103,13 +104,14 @@ theorem rebase_noop (sH : St) (r : RebaseFacts) (hs : sH.side = {}) (hi : r.inne
   hm_simp
   split <;> simp [journalOf]
 
-theorem pull_rebase_start (sH : St) (r : RebaseFacts) (hs : sH.side = {}) :
+theorem pull_rebase_start (sH : St) (r : RebaseFacts) (hs : sH.side = {}) (ha : r.autostash = false) :
     invokeAll {} false sH (rebaseStartEvs r true false) =
       ({ journal := sH.journal, side := { mask := true, pull := some r.orig } }, []) := by
   unfold rebaseStartEvs
   rw [invokeAll_append]
   have h3 : invokeAll {} false sH
-      [.preRebase (some r.upstreamArg) r.branchArg { head := some r.orig, action := if true = true then Action.pull else Action.unset },
+      [.preRebase (some r.upstreamArg) r.branchArg
+          { head := some r.orig, action := if true = true then Action.pull else Action.unset, rebaseDir := r.autostash },
        .refTx .committed [⟨some r.orig, some r.onto, .head⟩]
           { ({ rebaseDir := true, action := if true = true then Action.pull else Action.unset } : Ctx) with head := some r.onto },
        .postCheckout (some r.orig) (some r.onto) true
@@ -124,7 +126,8 @@ theorem pull_rebase_start (sH : St) (r : RebaseFacts) (hs : sH.side = {}) :
 
 /-- `pull --rebase` in which every local commit is already upstream: the fallback runs the pull post-rewrite
     handling (working log moved to the new head, nothing to map) and restores the masked entry points -/
-theorem pull_rebase_noop (sH : St) (r : RebaseFacts) (hs : sH.side = {}) (hi : r.inner = []) (hne : r.orig ≠ r.onto) :
+theorem pull_rebase_noop (sH : St) (r : RebaseFacts) (hs : sH.side = {}) (hi : r.inner = []) (hne : r.orig ≠ r.onto)
+    (ha : r.autostash = false) :
     invokeAll {} false sH (rebaseStartEvs r true true ++ rebaseEndEvs { r with pairs := [] } true) =
       ({ journal := sH.journal, side := {} }, [.fetchNotes, .renameWL r.orig r.onto r.wlAtOrig]) := by
   hm_simp
